@@ -498,6 +498,7 @@ func vfC10ClockCase(env *vfEnv, part *vfPart, i int) {
 	type hold struct {
 		key, lid int
 		e        uint16
+		eflag    uint16 // expiry unit of the replicated hold (seconds or minutes)
 		deadline int64 // lock.expriedTime right after the apply
 		endedAt  int64
 		unlockAt int64 // leader's UNLOCK record arrives at this tick (0: never)
@@ -519,6 +520,7 @@ func vfC10ClockCase(env *vfEnv, part *vfPart, i int) {
 		al.LockKey = vfKeyBytes(0, h.key)
 		al.AofFlag = aofFlag
 		al.ExpriedTime = e
+		al.ExpriedFlag = h.eflag
 		al.Count = 0xffff
 		_ = al.Encode()
 		_ = aof.ReplayLock(al)
@@ -539,6 +541,12 @@ func vfC10ClockCase(env *vfEnv, part *vfPart, i int) {
 	}
 	for j := 0; j < nh; j++ {
 		h := &hold{key: j, lid: 10 + j, e: uint16(rng.PickInt([]int{1, 2, 5, 9, 17, 30, 45}))}
+		minute := rng.Chance(25)
+		if minute {
+			// expiry in minutes: the follower has to derive the same deadline from it
+			h.e, h.eflag = uint16(rng.PickInt([]int{2, 3, 6, 7})), protocol.EXPRIED_FLAG_MINUTE_TIME // (a record with 1 minute left is applied with 0 left: one unit of granularity)
+			part.Add("clock_minute_holds", 1)
+		}
 		send(protocol.COMMAND_LOCK, h, 0, h.e, 0)
 		ch := find(h)
 		if ch == nil {
@@ -553,7 +561,9 @@ func vfC10ClockCase(env *vfEnv, part *vfPart, i int) {
 		case 0:
 			h.unlockAt = h.deadline + int64(rng.Range(-3, 290))
 		case 1:
-			h.extendAt = h.deadline + int64(rng.Range(-3, 250))
+			if !minute {
+				h.extendAt = h.deadline + int64(rng.Range(-3, 250))
+			}
 		}
 		holds = append(holds, h)
 		c.note("tick %d: replicated hold k%d L%d e=%d deadline=%d unlockAt=%d extendAt=%d", in.now, h.key, h.lid, h.e, h.deadline, h.unlockAt, h.extendAt)
